@@ -104,8 +104,10 @@ func (t *treePipeline) mkdir(r io.Reader, cfg *config) error {
 	ctx, cancel := context.WithCancel(cfg.ctx)
 	defer cancel()
 
+	t.grower.enableValidation()
 	splitStream, errcsl := split(ctx, r)
 	rootStream, errcr := newRootGeneratorPipeline().generate(ctx, splitStream)
+	// when detect invalid node name, return error. process end.
 	growStream, errcg := t.grower.grow(ctx, rootStream)
 	errcm := t.mkdirer.mkdir(ctx, growStream)
 	return t.handlePipelineErr(ctx, errcsl, errcr, errcg, errcm)
